@@ -450,7 +450,22 @@ class BasicVisitor(NodeVisitor):
 
     def visit_num_literal(self, node, visited_children):
         num_literal = node.full_text[node.start : node.end].replace(" ", "")
-        return BasicLiteral(float(num_literal))
+        return BasicLiteral(self._parse_num_literal(num_literal))
+
+    @staticmethod
+    def _parse_num_literal(num_literal: str) -> float:
+        """
+        Parses the text matched by num_literal the way Color BASIC reads it:
+        repeated signs are applied in turn, a missing mantissa or exponent
+        counts as 0.
+        """
+        digits = num_literal.lstrip("+-")
+        signs = num_literal[: len(num_literal) - len(digits)]
+        sign = -1.0 if signs.count("-") % 2 else 1.0
+        mantissa, _, exponent = digits.partition("E")
+        mantissa = mantissa if mantissa not in ("", ".") else "0"
+        exponent = exponent if exponent not in ("", "+", "-") else "0"
+        return sign * float(f"{mantissa}E{exponent}")
 
     def visit_int_literal(self, node, visited_children):
         num_literal = node.full_text[node.start : node.end].replace(" ", "")
